@@ -238,6 +238,7 @@ func ParseCigar(b []byte) (Cigar, error) {
 		err error
 	)
 	for i := 0; i < len(b); i++ {
+		op = lastCigar
 		for j := i; j < len(b); j++ {
 			if b[j] < '0' || '9' < b[j] {
 				n, err = atoi(b[i:j])
